@@ -1176,6 +1176,11 @@ class Engine:
 
     def apply_contract(self, fi, c, args, kwargs, node, site=None, closure_frame=None):
         """Modular call: assert requires, pick an outcome, assume ensures."""
+        if fi is not None and not self.pure:
+            # (the call itself is counted below under the callee's short name; this key only numbers the checkpoint)
+            key_ = 'cp:' + fi.qualname.replace('.', '/')
+            self.callcount[key_] = self.callcount.get(key_, 0) + 1
+            self.B.checkpoint(self, 'call:%s#%d' % (fi.node.name, self.callcount[key_]))
         fr_c = Frame(fi)
         self._lazy_bind = bool((fi is not None and fi.is_generator and not fi.is_inline_callbacks) or c.kind == 'generator')
         if c.closure_env and closure_frame is not None:
@@ -1247,6 +1252,8 @@ class Engine:
             from . import heap as H
             H.external_call(self, 'call of ' + nm)
         for name, e in c.ensures.items():
+            if any(k_ in e for k_ in ('n_events(', 'event_arg(', 'event_ref(', 'n_calls(', 'n_added(', 'events(')):
+                continue          # clauses about the callee's own activation trace say nothing in the caller's trace
             self.assume(self.pure_bool(e, fr_c))
         self.B.effects_of_call(self, c, fr_c)
         return res
